@@ -44,7 +44,12 @@ func (p c06) Gen(seed uint64, tier string, idx int) (*Case, bool) {
 	}
 	cur := gen.Curated
 	if idx < len(cur) {
-		return &Case{Kind: "parse", Src: cur[idx], Reader: gosim.ReaderPlan{Kind: "scanner", FaultAt: -1}, Note: "curated", DFS: dfs}, true
+		c := &Case{Kind: "parse", Src: cur[idx], Reader: gosim.ReaderPlan{Kind: "scanner", FaultAt: -1}, Note: "curated", DFS: dfs}
+		if len(c.Src) > 48 {
+			c.DFS = 0 // long inputs (deep nesting, giant words): sampled schedules only
+			c.Note = "curated-long"
+		}
+		return c, true
 	}
 	idx -= len(cur)
 	if idx < len(gen.ArithCurated) {
